@@ -488,6 +488,7 @@ pub struct Stats {
     pub affinity_calls_by_sut: u64,
     pub epochs_private_fs: u64,
     pub epochs_shared_fs: u64,
+    pub epochs_stderr_tty: u64,
     pub fs_leftovers: u64,
     pub pred_pairs: BTreeSet<u64>,
     pub interleavings: BTreeSet<u64>,
@@ -536,6 +537,7 @@ impl Stats {
         self.affinity_calls_by_sut += o.affinity_calls_by_sut;
         self.epochs_private_fs += o.epochs_private_fs;
         self.epochs_shared_fs += o.epochs_shared_fs;
+        self.epochs_stderr_tty += o.epochs_stderr_tty;
         self.fs_leftovers += o.fs_leftovers;
         self.pred_pairs.extend(o.pred_pairs);
         self.interleavings.extend(o.interleavings);
@@ -633,6 +635,9 @@ impl Stats {
                             self.epochs_private_fs += 1;
                         } else {
                             self.epochs_shared_fs += 1;
+                        }
+                        if ev["stderr_tty"].as_bool().unwrap_or(false) {
+                            self.epochs_stderr_tty += 1;
                         }
                     }
                     "end" => {
@@ -770,13 +775,18 @@ pub fn compute_references(cfg: &SearchConfig, w: &Workload, refs: &References) -
                                 note: "the two epochs are the two solo sessions".into(),
                             });
                         }
-                        Err(e) => errors.lock().unwrap().push(e.0),
+                        Err(e) => errors.lock().unwrap().push(format!("{} [program {}]", e.0, w.programs[i].key())),
                     }
                 }
             });
         }
     });
     let errors = errors.into_inner().unwrap();
+    if std::env::var_os("SESSIM_DEBUG_ERRORS").is_some() {
+        for e in &errors {
+            eprintln!("sessim: reference-stage error: {e}");
+        }
+    }
     if let Some(e) = errors.first() {
         return Err(HarnessError(format!("reference stage: {e} ({} errors)", errors.len())));
     }
